@@ -164,9 +164,26 @@ def run_impl(case: Case, tables):
         a = impl.query_ast(src, case.md)
     except Exception as e:  # noqa: BLE001
         return src, ("error", "query-construction:" + type(e).__name__, str(e)[:200])
-    r = impl.translate(case.backend, a)
+    # cms_miniaod: the package is also rendered a SECOND time from the same translated query (a second output directory, a
+    # retry): each retrieval of that package has its token declared and initialised too
+    r = impl.translate(case.backend, a, write_again=(case.backend == "cms_miniaod"))
     impl.reset_globals()
     return src, r
+
+
+def second_rendering_tokens(res) -> Optional[str]:
+    sl = res[1].get("slots_again") if res[0] == "ok" else None
+    if not sl:
+        return None
+    q = "\n".join(str(x) for x in sl.get("query_code", []))
+    used = re.findall(r"iEvent\.getByToken\((\w+), result\)", q)
+    decls = [m for x in sl.get("class_decl", []) for m in re.findall(r"edm::EDGetTokenT<.*> (\w+);", str(x))]
+    inits = [m for x in sl.get("book_code", []) for m in re.findall(r"^\s*(\w+) = consumes<", str(x))]
+    for tok in used:
+        if decls.count(tok) != 1 or inits.count(tok) != 1:
+            return (f"second rendering of the same translated query: token {tok} is read by getByToken but declared {decls.count(tok)}x and "
+                    f"initialised {inits.count(tok)}x in that package")
+    return None
 
 
 def run_on(exe, case: Case, tables):
@@ -401,6 +418,9 @@ def oracle(case: Case, tables, res) -> Optional[Tuple[str, str]]:
                         "each use needs its own token, declared and initialised once with its bank's tag")
         if len(decls) != len(ms) or len(inits) != len(ms):
             return ("token-count", f"{len(ms)} retrievals but {len(decls)} token members and {len(inits)} initialisations")
+        again = second_rendering_tokens(res)
+        if again:
+            return ("token-second-rendering", again)
         for m in ms:
             d = [d for d in decls if d[1] == m.group(2)][0]
             i = [i for i in inits if i[0] == m.group(2)][0]
